@@ -9,6 +9,8 @@ EXTENDS V2Tokenizer
 Letters == {LowSeq[i] : i \in 1..Len(LowSeq)}
 TabWords == {<<a>> : a \in Letters} \cup {<<a, b>> : a \in Letters, b \in Letters} \cup ListMarkers
                 \cup {<<"1">>, <<"1", "2">>, <<"3", ".", "1">>, <<"1", "a">>, <<"a", "1">>}
+                \cup {<<"9", "9">>, <<"1", "0", "0">>, <<"2", "5", "0">>, <<"9", "9", "9", "9">>, <<"2", ".", "1", "0", "5">>,     \* numbered lists run past 99
+                      <<"1", "2", ".", "1", "0">>, <<"1", "0", "0", ".", "2">>, <<"1", ".", ".", "2">>, <<".">>, <<"1", "0", "0", "a">>}
 TabSuffixes == {".", ":", ")"}
 Punct == {"-", "FIGDASH", "ENDASH", "EMDASH", "HYPHEN", "NBHYPHEN", "HBAR", "MINUS", "COPY", "SECT", "CURR", "MIDDOT", "*", "RQUOTE", "'", "EACUTE"}
 
@@ -20,7 +22,8 @@ TabMonths == TwoDig({"0", "1"}) \cup {<<"j", "a", "n">>, <<"M", "a", "r">>, <<"D
 TabDays   == TwoDig({"0", "1", "2", "3"}) \cup {<<"1">>, <<"1", "0", "0">>, <<"1", "a">>}
 DateLine(m, d) == <<"2", "0", "1", "9", "-">> \o m \o <<"-">> \o d
 (* interchangeable spellings with punctuation attached, as they stand in running text: the cleaned word is what is looked up *)
-Wraps == {<< <<"(">>, <<")", ",">> >>, << <<>>, <<".">> >>, << <<"'">>, <<"'", ",">> >>, << <<"(", "'">>, <<"'", ")", ";">> >>, << <<>>, <<"-", "1", "2", "3">> >>}
+Wraps == {<< <<"(">>, <<")", ",">> >>, << <<>>, <<".">> >>, << <<"'">>, <<"'", ",">> >>, << <<"(", "'">>, <<"'", ")", ";">> >>, << <<>>, <<"-", "1", "2", "3">> >>,
+          << <<"RQUOTE">>, <<"RQUOTE", ",">> >>, << <<>>, <<"RQUOTE">> >>}      \* typographic quotes are three bytes each and not ASCII
 
 VARIABLE done
 Init == done = FALSE
